@@ -87,6 +87,36 @@ func fnName(ln string) string {
 	return strings.TrimSpace(ln)
 }
 
+// CtxWatchers returns the goroutines of the current bubble (or of the process
+// outside a bubble) that package context started to watch a parent context it
+// cannot see through (propagateCancel).  Each exists on behalf of whoever
+// derived a context from such a parent and lives until the derived context is
+// cancelled.
+func CtxWatchers() []Goroutine {
+	var out []Goroutine
+	all := strings.Split(dumpAll(), "\n\n")
+	bubble := ""
+	for _, g := range all {
+		g = strings.TrimSpace(g)
+		if i := strings.Index(g, "\n"); i > 0 && strings.Contains(g[:i], "[running") {
+			bubble = bubbleRe.FindString(g[:i])
+			break
+		}
+	}
+	for _, g := range all {
+		g = strings.TrimSpace(g)
+		if !strings.Contains(g, "context.(*cancelCtx).propagateCancel.func") {
+			continue
+		}
+		lines := strings.Split(g, "\n")
+		if bubbleRe.FindString(lines[0]) != bubble {
+			continue
+		}
+		out = append(out, Goroutine{Header: lines[0], Top: "context.propagateCancel", Create: "context.WithCancel", Text: g})
+	}
+	return out
+}
+
 // CensusKeys summarises a census as a sorted multiset of "top <- creator".
 func CensusKeys(gs []Goroutine) []string {
 	out := make([]string, 0, len(gs))
